@@ -41,10 +41,14 @@ def work(chunk):
             col.outcomes[(mk, int(full.project.status))] += 1
             via_json = uses_only_saved_settings(spec)
             for k in range(0, min(mk + 1, kw["max_time"]) + 1):
-                for mode in (("memory", "json") if via_json else ("memory",)):
+                for mode in (("memory", "json", "looked-at") if via_json else ("memory", "looked-at")):
+                    if mode == "looked-at" and not opts.get("looked_at"):
+                        continue  # (the looked-at mode is taken for the items marked for it: the same list in both tiers)
                     m = runner.prepare(spec, opts)
                     try:
                         go(m.project, **dict(kw, max_time=k))
+                        if mode == "looked-at":
+                            runner.read_only_calls(m.project)  # queries, chart data builders and printing helpers at the pause: reading must not change what follows
                         if mode == "json":
                             path = os.path.join(tmpdir, "p%d.json" % os.getpid())
                             m.project.write_simple_json(path)
@@ -108,6 +112,10 @@ def items(tier):
     for fl in list(F.flows(3, ("FS", "SS"), (2, 3)))[::3]:
         sp = F.with_teams(fl, "TWOTEAM")
         out.append((dict(sp, teams=[dict(tm, wire="ctor") for tm in sp["teams"]]), {"rule": "TSLACK", "max_time": F.seq_bound(sp) + 10}))
+    # models whose paused state is also looked at through every read-only helper before the run goes on (mode "looked-at")
+    for sp, o in F.looked_at_items():
+        if o.get("resume_from") == 1 and not o.get("absence"):
+            out.append((sp, {"rule": "TSLACK", "max_time": o["max_time"], "looked_at": True}))
     out.append((F.long_idle_spec(130), {"rule": "TSLACK", "max_time": 160}))  # more than a hundred idle steps in the middle of the run
     for sp, o in F.scale_items():
         if not o.get("res_absence") and o["absence"] in ([], F.SCALE_ABSENCE[1]) and (tier == "thorough" or sp["label"] in ("scale:long-unsorted-calendars", "scale:8components", "scale:layers3x4", "scale:queue-of-nine")):
